@@ -22,7 +22,8 @@ func nlProps(op M) []string {
 var identTypeStrings = []struct {
 	S string
 	N int
-}{{"purl", 1}, {"cpe22Type", 2}, {"cpe23Type", 3}, {"gitoid", 4}, {"cpe2.3", 3}, {" CPE22 ", 2}, {"nonsense", 0}}
+}{{"purl", 1}, {"cpe22Type", 2}, {"cpe23Type", 3}, {"gitoid", 4}, {"cpe2.3", 3}, {" CPE22 ", 2}, {"nonsense", 0},
+	{"cpe22", 2}, {"cpe23", 3}, {"cpe2.2", 2}, {"PURL", 0}, {"Gitoid ", 0}, {"CPE23TYPE", 0}}
 
 func nlGen(g *G, tier string) []M {
 	ops := nlGen0(g, tier)
@@ -112,7 +113,12 @@ func nlGen0(g *G, tier string) []M {
 				ops = append(ops, M{"op": "byID", "a": a, "id": anyID()})
 			case 2:
 				it := identTypeStrings[g.Int(len(identTypeStrings))]
-				ops = append(ops, M{"op": "byIdent", "a": a, "tstr": it.S, "t": float64(it.N), "v": g.Pick(append(purlPool, "cpe:2.3:a:x", "v", "", ""))})
+				v := g.Pick(append(purlPool, "cpe:2.3:a:x", "v", "", ""))
+				if g.Chance(0.5) {
+					// a value of the kind the type names (the generator's own CPE strings, a purl)
+					v = map[int]string{0: "v", 1: g.Pick(purlPool), 2: "cpe:/a:x", 3: "cpe:2.3:a:x", 4: "v"}[it.N]
+				}
+				ops = append(ops, M{"op": "byIdent", "a": a, "tstr": it.S, "t": float64(it.N), "v": v})
 			case 3:
 				ops = append(ops, M{"op": "rootNodes", "a": a})
 			}
